@@ -3,10 +3,14 @@
 Tie: Kripke(S,S0,R,L), clone(), get_substructure(V), labels(s)/next(s) vs the Lean model (KripkeD.make, clone,
 substructure, labelsAt, nextAt) over all argument combinations on <=3 states (quick: <=3 sampled) incl. non-total R,
 labels for non-states, S0 outside S, L not a dict, non-iterable label values; all subsets V; aliasing observed via id().
+Stream KRELABEL (PMC/Model/KripkeApi.lean, PMC/Properties/C14Api.lean): labelling_function() / replace_labelling_function(L2)
+with L2 lacking states and holding keys that are not states — the dict afterwards, labels(), labels(x), clone(),
+get_substructure(V), the returned former dict, and CTL.modelcheck afterwards, against the model; the adoption of the
+caller's dict BY REFERENCE (not expressible in the functional model) is observed directly and recorded, not judged.
 """
 import itertools
 
-from common import enc_labels, enc_name, enc_pairs, enc_set, lean_batch, proof_coverage, rng_for
+from common import enc_labels, enc_name, enc_pairs, enc_set, lean_batch, proof_coverage, rng_for, sexpr
 from theorems import get
 
 MODULES, THEOREMS = get('C14')
@@ -44,6 +48,10 @@ def run(res):
                 cases.append((S, S0, R, L))
     lines, impl, descr = [], [], []
     alias_viol = []
+    obs = {k: 0 for k in ('calls', 'returned_former_dict_is_the_internal_object', 'internal_dict_is_the_callers_object',
+                          'callers_dict_grew_the_missing_states', 'label_sets_adopted_not_copied',
+                          'later_edit_of_the_callers_set_shows_through_labels',
+                          'later_assignment_in_the_callers_dict_shows_through_labels')}
     for S, S0, R, L in cases:
         rs = list(R)
         rng.shuffle(rs)
@@ -140,6 +148,51 @@ def run(res):
         descr.append(('clone', S, S0, rs, L))
         if C[0] is not None and any(id(v) in own for v in C[0]._labels.values()):
             alias_viol.append(('clone', S, S0, rs, L, None))
+        # labelling_function() / replace_labelling_function(L2): L2 may lack states and may have keys that are no states
+        for _ in range(2):
+            keys = [k for k in nodes + [max(nodes) + 1, max(nodes) + 2] if rng.random() < 0.6]
+            L2 = {k: [a for a in ('a', 'b', 'zz') if rng.random() < 0.5] for k in keys}
+            Vr = [v for v in nodes + [max(nodes) + 1] if rng.random() < 0.6]
+            probes2 = nodes + [max(nodes) + 1, max(nodes) + 2]
+            K2 = mk()
+            lf = K2.labelling_function()
+            L2obj = {k: set(v) for k, v in L2.items()}
+            vals = {k: v for k, v in L2obj.items()}
+
+            def dict_enc(d):
+                return ';'.join('%d:%s' % (k, ' '.join(sorted(enc_name(l) for l in d[k]))) for k in sorted(d))
+
+            def relabel():
+                old = K2.replace_labelling_function(L2obj)
+                obs['calls'] += 1
+                obs['returned_former_dict_is_the_internal_object'] += int(old is lf)
+                obs['internal_dict_is_the_callers_object'] += int(K2._labels is L2obj and K2.labelling_function() is L2obj)
+                obs['callers_dict_grew_the_missing_states'] += int(any(k not in L2 for k in L2obj))
+                obs['label_sets_adopted_not_copied'] += int(all(K2._labels[k] is vals[k] for k in vals))
+                parts = [dict_enc(K2._labels), ' '.join(sorted(enc_name(l) for l in K2.labels())),
+                         ' ; '.join(attempt(lambda: 'OK ' + ' '.join(sorted(enc_name(l) for l in K2.labels(x)))) for x in probes2),
+                         attempt(lambda: canon(K2.clone())), attempt(lambda: canon(K2.get_substructure(set(Vr)))), dict_enc(old)]
+                return ' / '.join(parts)
+            lines.append('KRELABEL|%s|%s|%s|%s|%s|%s|%s' % (' '.join(map(str, S)), ' '.join(map(str, S0)), enc_pairs(rs), Lenc,
+                                                          enc_labels(sorted(L2.items())), ' '.join(map(str, probes2)),
+                                                          ' '.join(map(str, Vr))))
+            impl.append(attempt(relabel))
+            descr.append(('relabel', S, S0, rs, L, L2, Vr))
+            if K2._labels is L2obj:
+                # what the checker computes afterwards: the same graph labelled by L2 (keys that are no states ignored)
+                from pyModelChecking import CTL as _CTL
+                g_enc = ';'.join('%d:%s' % (v, ' '.join(map(str, sorted(K2._next[v])))) for v in K2._next)
+                for ft, fo in ((('ap', 'a'), _CTL.AtomicProposition('a')), (('ap', 'zz'), _CTL.AtomicProposition('zz')),
+                               (('E', ('X', ('ap', 'b'))), _CTL.EX('b')), (('not', ('ap', 'a')), _CTL.Not('a'))):
+                    lines.append('CTL|%s|%s|%s' % (g_enc, enc_labels(sorted(L2.items())), sexpr(ft)))
+                    impl.append(attempt(lambda: 'OK ' + ' '.join(map(str, sorted(_CTL.modelcheck(K2, fo))))))
+                    descr.append(('ctl-after-relabel', S, S0, rs, L, L2, sexpr(ft)))
+                # by reference: an edit of the caller's dict after the call shows through labels(s)
+                s0_ = nodes[0]
+                L2obj[s0_].add('late')
+                obs['later_edit_of_the_callers_set_shows_through_labels'] += int('late' in K2.labels(s0_))
+                L2obj[s0_] = set(['swapped'])
+                obs['later_assignment_in_the_callers_dict_shows_through_labels'] += int(K2.labels(s0_) == set(['swapped']))
         subsets = list(itertools.chain.from_iterable(itertools.combinations(nodes + [max(nodes) + 1], k)
                                                      for k in range(len(nodes) + 2)))
         for V in subsets:
@@ -178,7 +231,7 @@ def run(res):
         kinds[d[0]] = kinds.get(d[0], 0) + 1
         if a.startswith('ERR'):
             errs += 1
-        if a.strip() != m.strip():
+        if ' '.join(a.split()) != ' '.join(m.split()):
             bad += 1
             if bad <= 3:
                 res.violation('Kripke operation %s: implementation gives %r, the model (proved) gives %r' % (d[0], a, m),
@@ -197,6 +250,7 @@ def run(res):
                 'labels/next of every state and a non-state, clone, get_substructure for every subset of states plus '
                 'one non-state; distinct_nontrivial = distinct operations that succeed',
         'operation_kinds': kinds, 'error_answers': errs, 'disagreements': bad,
+        'replace_labelling_function_observations': obs,
         'samples': [{'op': lines[i], 'impl': impl[i], 'model': model[i]} for i in (0, len(lines) // 2, len(lines) - 1)],
         'traces_validated_against_impl': len(lines),
     })
